@@ -81,6 +81,13 @@ class C19(Prop):
                 else:
                     vals = sorted(set(y + cols[0]))
                     c["etas"] = sorted(set(rng.sample(vals, min(len(vals), rng.randint(1, 5))) + [rng.randint(-8, 24) / 4 for _ in range(2)]))
+                    r_ = rng.random()
+                    if r_ < 0.2:
+                        c["etas"] = c["etas"][::-1]  # a descending grid
+                    elif r_ < 0.35:
+                        rng.shuffle(c["etas"])  # thresholds in the user's own order
+                    elif r_ < 0.45 and len(c["etas"]) >= 2:
+                        c["etas"] = c["etas"] + [c["etas"][0]]  # a repeated threshold
                 if len(set(y + [v for col in cols for v in col])) < 2:
                     continue
                 if rng.random() < 0.35:
